@@ -158,6 +158,25 @@ PROPS["C05"] = {
 }
 
 
+PROPS["C07"] = {
+    "exhaustive": [
+        {"spec": "ProviderStore.tla", "cfg": "ProviderStore_quick.cfg"},
+        {"spec": "ProviderStore.tla", "cfg": "ProviderStore_two.cfg"},
+        {"spec": "ProviderStore.tla", "cfg": "ProviderStore_thorough.cfg", "tier": "thorough", "timeout": 3000, "heap": "20g"},
+        {"spec": "ProviderStore.tla", "cfg": "ProviderStore_neg_cache.cfg", "expect": "violation"},
+        {"spec": "ProviderStore.tla", "cfg": "ProviderStore_neg_boundary.cfg", "expect": "violation"},
+        {"spec": "ProviderStore.tla", "cfg": "ProviderStore_neg_serve.cfg", "expect": "violation"},
+    ],
+    "drivers": [{"test": "TestProviderStore", "trace_spec": "ProviderTrace.tla", "trace_cfg": "ProviderTrace.cfg", "inv_cfg": {"C07": "ProviderTrace_C07.cfg"}}],
+    "assumptions": [
+        "the datastore is a mutex-wrapped map datastore behind a gate; only the background GC's accesses are scheduled (foreground calls are serialised by the store's own mutex, so they are issued one at a time)",
+        "virtual clock (testing/synctest); validity 2 h, GC interval 1 h, LRU capacity 1-3 (public option) so that eviction happens",
+        "the documented exception (re-addition racing with the sweep of the same expired record) is recognised from the sweeper's own snapshot time",
+    ],
+    "explanation": "ProviderStore.tla (disk, LRU cache, lazy expiry, entry-by-entry sweep from a snapshot, restart) is model-checked for served-iff-fresh with three negative controls; the real ProviderManager runs histories of add/get/tick/restart/close with the GC's datastore accesses placed at every possible point between foreground calls, and TLC validates every GetProviders result and every datastore delete against ProviderTrace.tla.",
+}
+
+
 def overlay_file(scratch, spec):
     return None
 
@@ -445,6 +464,38 @@ def mut_c05_stale_read(run):
     return None
 
 
+def mut_c07_missing(run):
+    if "cachecap" not in run[0]:
+        return None
+    for i, ev in enumerate(run):
+        if ev["e"] == "Get" and ev["provs"] and not ev["closed"]:
+            r = copy.deepcopy(run)
+            r[i]["provs"] = r[i]["provs"][1:]
+            return r
+    return None
+
+
+def mut_c07_stranger(run):
+    if "cachecap" not in run[0]:
+        return None
+    for i, ev in enumerate(run):
+        if ev["e"] == "Get" and not ev["closed"] and len(ev["provs"]) < run[0]["np"]:
+            r = copy.deepcopy(run)
+            missing = [p for p in range(run[0]["np"]) if p not in ev["provs"]]
+            r[i]["provs"] = sorted(r[i]["provs"] + missing[:1])
+            return r
+    return None
+
+
+def mut_c07_afterclose(run):
+    if "cachecap" not in run[0]:
+        return None
+    i = _find(run, "End")
+    r = copy.deepcopy(run)
+    r.insert(i, {"e": "DS", "actor": "gc", "op": "query", "k": -1, "p": -1, "afterclose": True, "ts": r[i]["ts"]})
+    return r
+
+
 MUTATIONS = {
     "C01": [mut_c01_unsorted, mut_c01_drop_nearest, mut_c01_resp_event],
     "C02": [mut_c02_unasked],
@@ -453,6 +504,7 @@ MUTATIONS = {
     "C06": [mut_c06_missing_recipient, mut_c06_foreign_provider],
     "C08": [mut_c08_unnamed, mut_c08_dup],
     "C05": [mut_c05_downgrade, mut_c05_invalid_stored, mut_c05_fresh_deleted, mut_c05_stale_read],
+    "C07": [mut_c07_missing, mut_c07_stranger, mut_c07_afterclose],
     "C12": [mut_c12_stranger, mut_c12_self, mut_c12_noevict, mut_c12_lost_refresh],
 }
 
